@@ -110,7 +110,7 @@ fn too_slow() -> bool {
     SLOW_CASES.load(std::sync::atomic::Ordering::SeqCst) >= SLOW_LIMIT
 }
 
-fn hash_str(s: &str) -> u64 {
+pub fn hash_str(s: &str) -> u64 {
     let mut h = std::collections::hash_map::DefaultHasher::new();
     s.hash(&mut h);
     h.finish()
